@@ -20,6 +20,7 @@ Not decided: optimality against competitor subspaces and monotonicity in mixing
 """
 from .. import protocols
 from ..harness import arr, extobj, integer, scalar
+from .. import tq
 from ..interp import State
 from ..terms import T, vconst
 from . import pcovr_common as pc
@@ -81,8 +82,9 @@ def yhat(ctx, N):
                 ctx.ob("R-YHAT", f"[{cfg}] precomputed: Yhat is a copy of the supplied targets", ok, f"Yhat = {t[:200]} origin {sorted(Yh.orig)}", site, cfg)
             else:
                 preds = [e for e in I.events[lo:] if e["kind"] == "extcall" and e["method"] == "predict"]
-                ok = len(preds) == 1 and preds[0]["args"] and preds[0]["args"][0].term == X.term and "predict" in t and Y.term not in [x for x in Yh.term.walk() if x.op == "sym" and x.args[0] == "Y"][:0]
-                ctx.ob("R-YHAT", f"[{cfg}] Yhat = regressor_.predict(X)", ok and ".predict(X)" in t, f"Yhat = {t[:200]}", site, cfg)
+                ok = len(preds) == 1 and preds[0]["args"] and preds[0]["args"][0].term == X.term
+                okp = any(x.op == "mcall" and x.args[1] == "predict" and x.args[2] and x.args[2][0] == X.term for x in tq.walk_all(Yh.term))
+                ctx.ob("R-YHAT", f"[{cfg}] Yhat = regressor_.predict(X)", bool(ok and okp), f"Yhat = {t[:200]}", site, cfg)
                 fits = [e for e in I.events[lo:] if e["kind"] == "mutate-object" and e["method"] == "fit"]
                 okf = all(e["args"] and e["args"][0].term == X.term for e in fits) and (len(fits) >= 1)
                 ctx.ob("R-YHAT", f"[{cfg}] the regressor is fitted on (X, Y)", okf, f"{len(fits)} regressor fit(s)", site, cfg)
@@ -95,7 +97,7 @@ def yhat(ctx, N):
                     want = T("lstsq", X.term, Y.term, ("rcond", ctor["tol"].term))
                     ctx.ob("R-YHAT", f"[{cfg}] W = lstsq(X, Yhat, tol)", N.nf(W.term) == N.nf(want), tw[:200], site, cfg)
                 else:
-                    ctx.ob("R-YHAT", f"[{cfg}] W = regressor_.coef_^T", "coef_" in tw and ".T" in tw.replace("ᵀ", ".T"), tw[:200], site, cfg)
+                    ctx.ob("R-YHAT", f"[{cfg}] W = regressor_.coef_^T", tq.has_attr(W.term, "coef_") and tq.has_op(W.term, "T"), tw[:200], site, cfg)
                     ctx.shape_is("Shape", f"[{cfg}] W is (n_features, n_targets)", W, ("M", "P"), site, cfg) if reg == "default" else None
 
 
